@@ -1,7 +1,7 @@
 SPECIFICATION Spec
 CONSTANTS
   N = 3
-  Shapes = {"fixed", "stream", "empty"}
+  Shapes = {"fixed", "stream", "empty", "bodiless"}
   MaxBlocks = 3
 INVARIANT TypeOK
 INVARIANT ResponsesPrefixOfRequests
